@@ -20,7 +20,7 @@ from hl7apy.parser import parse_segment, parse_message, parse_field
 # ---- op codes ------------------------------------------------------------------------------------------
 (NOP, SET, ADD, IDX, DELI, SETLONG, ADDH, DELN, REM, COPY, SETELEM,
  REATTACH, WRONGCLS, OTHERVER, OTHERLVL, SETWRONG, READ, SETBADVAL, IDXELEMLVL, SETELEMVER, DTCHANGE,
- NESTED, REATTACHBAD, SETDT, SETVALUE, PROXYVAL, SETDTOK, DELCH) = range(28)
+ NESTED, REATTACHBAD, SETDT, SETVALUE, PROXYVAL, SETDTOK, DELCH, SETCH, COPYEC, MOVE, POPINS) = range(32)
 OPNAMES = ['nop', 'set-by-name', 'add(elem)', 'proxy[i]=v', 'del proxy[i]', 'set-by-long-name', 'add_<child>()+value',
            'del by name', 'children.remove', 'copy from other element', 'set-by-name(elem)',
            'other.add(child of target)', 'add(elem of wrong class)', 'add(elem of other version)',
@@ -29,9 +29,13 @@ OPNAMES = ['nop', 'set-by-name', 'add(elem)', 'proxy[i]=v', 'del proxy[i]', 'set
            'change datatype of populated child', 'nested set through the proxy (el.child.sub = v)',
            'other-level element .add(child of target)', 'set-by-name(base datatype object)',
            'el.value = text with a repeated non-repeatable child', 'el.child.value = value invalid under STRICT',
-           'set-by-name(base datatype object of the child\'s own datatype)', 'del el.children[position of the i-th child of that name]']
+           'set-by-name(base datatype object of the child\'s own datatype)', 'del el.children[position of the i-th child of that name]',
+           'el.children[position of the i-th child of that name] = v',
+           'copy from an element of a message with other encoding characters',
+           'proxy[i] = proxy[i+1] (a child assigned to another place of the same parent)',
+           'c = el.children.pop(k); el.children.insert(k, c) (k = position of the i-th child of that name)']
 CORE_OPS = [SET, ADD, IDX, DELI]
-FULL_OPS = [SET, ADD, IDX, DELI, SETLONG, ADDH, DELN, REM, COPY, SETELEM, NESTED, SETDTOK, DELCH]
+FULL_OPS = [SET, ADD, IDX, DELI, SETLONG, ADDH, DELN, REM, COPY, SETELEM, NESTED, SETDTOK, DELCH, SETCH, COPYEC, MOVE, POPINS]
 # operations that are meant to be refused (or that stress attachment) - used by C10 / C12
 REJECT_OPS = [REATTACH, WRONGCLS, OTHERVER, OTHERLVL, SETWRONG, READ, SETBADVAL, IDXELEMLVL, SETELEMVER, DTCHANGE, REATTACHBAD,
               SETDT, SETVALUE, PROXYVAL]
@@ -63,9 +67,15 @@ def actions(target, ops, names=None, nidx=None):
                 continue
             if op == SETDTOK and TARGETS[target]['dtobj'][n] is None:
                 continue
+            if op == COPYEC and target == 'fld':
+                continue        # (a lone field has no message to take other delimiters from)
             if op in (WRONGCLS, READ, SETVALUE) and n != (names[0] if names else 0):
                 continue   # the child name is irrelevant for these
-            if op in (IDX, DELI, REM, REATTACH, IDXELEMLVL, REATTACHBAD, DELCH):
+            if op in (MOVE, POPINS):
+                for i in range(2):
+                    acts.append((op, n, i))
+                continue
+            if op in (IDX, DELI, REM, REATTACH, IDXELEMLVL, REATTACHBAD, DELCH, SETCH):
                 for i in range(nidx if op not in (REATTACH, REATTACHBAD) else 2):
                     acts.append((op, n, i))
             else:
@@ -157,6 +167,17 @@ def _other(target, level):
     m = parse_message('MSH|^~\\&|||||2020||ADT^A01^ADT_A01|2|P|2.5\rEVN||2020\rPID|||2||T\rNK1|5\rNK1|6\rPV1||O\rOBX|7\rAL1|8',
                       validation_level=level, find_groups=False)
     return m, {'NK1': 'NK1|5', 'OBX': 'OBX|7', 'AL1': 'AL1|8'}
+
+
+_OTHER_VALUES_EC = {'seg': {'PID_3': 'P', 'PID_5': 'R&U', 'PID_8': 'T'},
+                    'msg': {'NK1': 'NK1|5', 'OBX': 'OBX|7', 'AL1': 'AL1|8'}}
+
+
+def _other_ec(target, level):
+    """source of a copy: the same kind of element inside a message that declares OTHER encoding characters (! @ % ? $)"""
+    m = parse_message('MSH!@%?$!!!!!2020!!ADT@A01@ADT_A01!2!P!2.5\rEVN!!2020\rPID!!!P%Q!!R$U%S!!!T\rNK1!5\rNK1!6\rPV1!!O\rOBX!7\rAL1!8',
+                      validation_level=level, find_groups=False)
+    return m.pid[0] if target == 'seg' else m
 
 
 # ---- one step: real element and model --------------------------------------------------------------------------
@@ -299,12 +320,25 @@ def apply_real(target, el, act, step, level, other=None, offered=None, otherbad=
     elif op == DELCH:
         at = [k for k, c in enumerate(el.children) if c.name == name]
         del el.children[at[i]]
+    elif op == SETCH:
+        at = [k for k, c in enumerate(el.children) if c.name == name]
+        el.children[at[i]] = t
+    elif op == MOVE:
+        p = getattr(el, name.lower())
+        p[i] = p[i + 1]
+    elif op == POPINS:
+        at = [k for k, c in enumerate(el.children) if c.name == name]
+        c = el.children.pop(at[i])
+        el.children.insert(at[i], c)
     elif op == DELN:
         delattr(el, name.lower())
     elif op == REM:
         el.children.remove(getattr(el, name.lower())[i])
     elif op == COPY:
         src, _ = _other(target, level)
+        setattr(el, name.lower(), getattr(src, name.lower()))
+    elif op == COPYEC:
+        src = _other_ec(target, level)
         setattr(el, name.lower(), getattr(src, name.lower()))
     elif op == SETELEM:
         c = _new_child(target, name, tok(step), level)
@@ -323,9 +357,11 @@ def apply_model(target, model, act, step, level):
     model = list(model)
     if op == NOP:
         return model
-    if op in (SET, SETLONG, SETELEM, COPY, NESTED, SETDTOK):
+    if op in (SET, SETLONG, SETELEM, COPY, NESTED, SETDTOK, COPYEC):
         if op == COPY:
             t = _other_values(target)[name]
+        if op == COPYEC:
+            t = _OTHER_VALUES_EC[target][name]
         if mine:
             model[mine[0]] = (name, t)
         else:
@@ -337,6 +373,20 @@ def apply_model(target, model, act, step, level):
             model[mine[i]] = (name, t)
         else:
             model.append((name, t))
+    elif op == SETCH:
+        if i < len(mine):
+            model[mine[i]] = (name, t)
+        else:
+            return None
+    elif op == MOVE:
+        if i + 1 < len(mine):
+            model[mine[i]] = model[mine[i + 1]]
+            del model[mine[i + 1]]
+        else:
+            return None
+    elif op == POPINS:
+        if i >= len(mine):
+            return None
     elif op in (DELI, REM, DELCH):
         if i < len(mine):
             del model[mine[i]]
